@@ -98,7 +98,15 @@ class Check:
             s.results.append(r)
             for inc in r.inconclusive:
                 s.machinery.append('%s%s: %s: %s' % (r.entry, r.params, inc['kind'], inc['msg'][:600]))
-            for i, b in enumerate(r.bugs): s.triage(r, i, b)
+            skip = set((r.job or {}).get('other_property_kinds') or ())
+            for i, b in enumerate(r.bugs):
+                if b['kind'] in skip:
+                    # a path ended by a monitor that belongs to another property (e.g. undefined behaviour = C15): not this
+                    # property's violation; the path is simply not continued (counted, stated in the evidence)
+                    s.extra.setdefault('paths_ended_by_other_property_monitor', {}).setdefault(b['kind'], 0)
+                    s.extra['paths_ended_by_other_property_monitor'][b['kind']] += 1
+                    continue
+                s.triage(r, i, b)
             for k, d in getattr(r, 'known_hits', {}).items(): s.known_printed.setdefault(k, 'solver counterexample on %d path(s), e.g. %s' % (d['count'], d['msg'][:160]))
             mr = (r.job or {}).get('must_reach') or []
             for m in mr:
